@@ -12,6 +12,7 @@ import (
 	"verif/internal/refmodel"
 
 	"github.com/go-i2p/common/destination"
+	"github.com/go-i2p/common/keys_and_cert"
 	"github.com/go-i2p/common/router_identity"
 	"github.com/go-i2p/common/router_info"
 )
@@ -20,7 +21,7 @@ func init() { register("C07", runC07, replayC07) }
 
 type c07ID struct {
 	path string
-	dest *destination.Destination       // one of the two is set
+	dest *destination.Destination // one of the two is set
 	ri   *router_identity.RouterIdentity
 	buf  []byte // the private buffer the value was parsed from (nil for constructed values)
 }
@@ -54,6 +55,31 @@ func c07Paths(w []byte, k refmodel.KeysAndCert, withCtor bool) []c07ID {
 		b = mk()
 		if ri, rem, err := router_identity.NewRouterIdentityFromBytes(b); err == nil && bytes.Equal(rem, tail) {
 			out = append(out, c07ID{path: "router_identity.NewRouterIdentityFromBytes" + tn, ri: ri, buf: b})
+		}
+	}
+	// wrapping constructors fed from every KeysAndCert reader (generic and the two type-specific twins)
+	type kacReader struct {
+		name string
+		fn   func([]byte) (*keys_and_cert.KeysAndCert, []byte, error)
+	}
+	for _, kr := range []kacReader{
+		{"ReadKeysAndCert", keys_and_cert.ReadKeysAndCert},
+		{"ReadKeysAndCertElgAndEd25519", keys_and_cert.ReadKeysAndCertElgAndEd25519},
+		{"ReadKeysAndCertX25519AndEd25519", keys_and_cert.ReadKeysAndCertX25519AndEd25519},
+	} {
+		b := append([]byte(nil), w...)
+		kac, rem, err := kr.fn(b)
+		if err != nil || kac == nil || len(rem) != 0 {
+			continue
+		}
+		if d, err := destination.NewDestination(kac); err == nil {
+			out = append(out, c07ID{path: "destination.NewDestination(" + kr.name + ")", dest: d, buf: b})
+		}
+		b2 := append([]byte(nil), w...)
+		if kac2, rem2, err := kr.fn(b2); err == nil && len(rem2) == 0 {
+			if ri, err := router_identity.NewRouterIdentityFromKeysAndCert(kac2); err == nil {
+				out = append(out, c07ID{path: "router_identity.NewRouterIdentityFromKeysAndCert(" + kr.name + ")", ri: ri, buf: b2})
+			}
 		}
 	}
 	if withCtor {
@@ -220,7 +246,7 @@ func c07One(r *core.Run, s gen.Signed, desc string) {
 }
 
 func runC07(r *core.Run) {
-	r.Rule = "E1: every identity of the KeysAndCert generator within 2 (thorough 3) variations (every supported signing/crypto pair, NULL / KEY / KEY+extra-payload certificates, marker/zero/ff padding and key fills) through ReadDestination, NewDestinationFromBytes, ReadRouterIdentity, NewRouterIdentityFromBytes, AsDestination, NewDestination, NewRouterIdentity and RouterInfo.IdentHash, each parser on the exact bytes AND embedded in two longer buffers (all resulting values must compare equal), and again after the parse buffers were overwritten; for each base EVERY byte position x {^01, ^ff}. Oracle: Hash == SHA-256(wire bytes) (standard library), Base32Address == independent bit-level base32 + suffix (60 chars), Base64 decodes back, Equals/Equal <=> byte equality. non-trivial = distinct identity encodings whose hash/address were compared"
+	r.Rule = "E1: every identity of the KeysAndCert generator within 2 (thorough 3) variations (every supported signing/crypto pair, NULL / KEY / KEY+extra-payload certificates, marker/zero/ff padding and key fills) through ReadDestination, NewDestinationFromBytes, ReadRouterIdentity, NewRouterIdentityFromBytes, AsDestination, NewDestination / NewRouterIdentityFromKeysAndCert over the generic and both type-specific KeysAndCert readers, NewRouterIdentity and RouterInfo.IdentHash, each parser on the exact bytes AND embedded in two longer buffers (all resulting values must compare equal), and again after the parse buffers were overwritten; for each base EVERY byte position x {^01, ^ff}. Oracle: Hash == SHA-256(wire bytes) (standard library), Base32Address == independent bit-level base32 + suffix (60 chars), Base64 decodes back, Equals/Equal <=> byte equality. non-trivial = distinct identity encodings whose hash/address were compared"
 	bound := 2
 	if !r.Quick() {
 		bound = 3
